@@ -117,13 +117,25 @@ Record page_read : Type := {
 
 Inductive pstatus : Type := PErr | PFault (f : fault) | POk (r : page_read).
 
-(** carquet_read_next_page, first half: "Load a new page if needed" *)
-Definition ensure_page (st : cstate) : cstate * bool :=
+(** carquet_read_next_page, first half: "Load a new page if needed" - a while loop since commit
+    "fix: column reader: a data page without values is passed over": pages with num_values = 0 are skipped.
+    Every iteration after the first moves to the next page, and loading fails past the last one, so
+    length pages + 2 iterations are enough. *)
+Inductive lstatus : Type := LOk | LErr | LFuel.
+
+Fixpoint ensure_page_loop (fuel : nat) (st : cstate) : cstate * lstatus :=
   if negb (cs_loaded st) || (cs_pnum st <=? cs_pread st)%nat then
-    let st0 := if cs_loaded st then set_after_advance st else st in
-    let '(st', ok) := load_next_page st0 in
-    (if ok then set_pdense st' O else st', ok)
-  else (st, true).
+    match fuel with
+    | O => (st, LFuel)
+    | S f =>
+        let st0 := if cs_loaded st then set_after_advance st else st in
+        let '(st', ok) := load_next_page st0 in
+        if ok then ensure_page_loop f (set_pdense st' O) else (st', LErr)
+    end
+  else (st, LOk).
+
+Definition ensure_page (st : cstate) : cstate * lstatus :=
+  ensure_page_loop (S (S (length (cs_pages st)))) st.
 
 (** carquet_read_next_page, second half: available / to_copy, the copy-out, the state update *)
 Definition copy_from_page (st1 : cstate) (max_values : Z) : cstate * pstatus :=
@@ -147,8 +159,11 @@ Definition copy_from_page (st1 : cstate) (max_values : Z) : cstate * pstatus :=
 
 (** carquet_read_next_page(reader, values, max_values, def_levels, NULL, &values_read, &non_null_read) *)
 Definition read_next_page (st : cstate) (max_values : Z) : cstate * pstatus :=
-  let '(st1, ok) := ensure_page st in
-  if negb ok then (st1, PErr) else copy_from_page st1 max_values.
+  match ensure_page st with
+  | (st1, LErr) => (st1, PErr)
+  | (st1, LFuel) => (st1, PFault OutOfFuel)
+  | (st1, LOk) => copy_from_page st1 max_values
+  end.
 
 (** memcpy into the caller's buffer at an element offset: writing outside it is a fault *)
 Definition write_at {B} (buf : list B) (off : nat) (src : list B) : res (list B) :=
